@@ -15,6 +15,7 @@ EXPLANATION = (
     "start/end notes) is registered in _ref_attrs by the class that assigns it; (LINKS) the final loop re-links all "
     "consecutive points of the new part; (IDS) update_ids flows to the one call of update_note_ids_after_unfolding and "
     "the minimal unfolding passes False; (F8b) no int() of a rank-1 array on the unfolding paths."
+    ' (MAP-scope) the object map is started afresh for every visited segment.'
 )
 NOT_DECIDED = [
     "path validity, lengths, counts (2^r variants), per-visit copies, maximal/minimal semantics: a search over the run-time segment graph",
